@@ -5,8 +5,17 @@ import (
 	"os"
 	"runtime"
 	"strings"
+	"sync/atomic"
 	"time"
 )
+
+// SelfExams counts the examinations started by the child's own examiner. An
+// examination allocates (the goroutine dump); a monitor that meters the
+// allocations of a library call reads the counter before and after the call and
+// discards a measurement during which an examination ran.
+var SelfExams atomic.Int64
+
+var selfExamBuf []byte
 
 // selfWatch is the child's own examiner for calls into the library that never
 // return because they wait for a lock nobody will release (sequential
@@ -25,6 +34,7 @@ func (c *Ctx) selfWatch() {
 	if c.marker == nil || c.Prop.Race {
 		return
 	}
+	selfExamBuf = make([]byte, 8<<20) // once, before anything is metered
 	go func() {
 		last, still := ^uint64(0), 0
 		read := func() (uint64, byte) {
@@ -82,7 +92,11 @@ func (c *Ctx) selfWatch() {
 // sync primitive; it returns those goroutines' states and stacks (without the
 // wait durations) and the innermost library function of the first one.
 func libBlocked() (stacks, frame string, ok bool) {
-	buf := make([]byte, 8<<20)
+	SelfExams.Add(1)
+	buf := selfExamBuf
+	if buf == nil {
+		buf = make([]byte, 8<<20)
+	}
 	dump := string(buf[:runtime.Stack(buf, true)])
 	var sb strings.Builder
 	n := 0
